@@ -847,7 +847,12 @@ func (g *hlGen) build(kind string, ev *eval.BlockEvaluator) []*txntest.Txn {
 		}
 		err = s.offerSigned(ev, "replay", []transactions.SignedTxn{stxn})
 		if err == nil {
-			s.c.Violation("replay-accepted", map[string]any{"txid": stxn.ID().String(), "committed_round": m.txids[stxn.ID()], "offered_at": ev.Round(), "first": stxn.Txn.FirstValid, "last": stxn.Txn.LastValid, "trace": s.traceTail(20)})
+			w := map[string]any{"txid": stxn.ID().String(), "committed_round": m.txids[stxn.ID()], "offered_at": ev.Round(), "first": stxn.Txn.FirstValid, "last": stxn.Txn.LastValid, "trace": s.traceTail(20)}
+			if s.c.Prop == "C11" {
+				s.c.Violation("replay-accepted", w)
+			} else {
+				s.c.Observation("anomaly owned by C11: replay-accepted %v", w)
+			}
 		}
 		return []*txntest.Txn{{}}
 	}
